@@ -7,7 +7,7 @@
 (*   idx   {a, r}               routing observation: a.op is "search"      *)
 (*                              (SearchIndex), "xhash" (XHashIndex) or     *)
 (*                              "simple" (SimpleIndex); a.k = [t, b] the   *)
-(*                              key (type name, limbs or bytes), a.neg,    *)
+(*                              key (type name, limbs or bytes), and       *)
 (*                              a.h = limbs of the 64-bit hash (of the key *)
 (*                              value itself on the modulo route); r the   *)
 (*                              index the real code returned               *)
